@@ -46,7 +46,7 @@ pub fn run(tier: Tier) -> i32 {
 
     // ---------------------------------------------------------------- E4 with every limit
     {
-        let nmax = tier.pick(4usize, 7usize);
+        let nmax = tier.pick(5usize, 7usize);
         let name = format!("E4/circular/dict=1..{}/limit=0..dict+1", nmax);
         if ctx.may_start(&name) {
             let t0 = Instant::now();
@@ -77,7 +77,7 @@ pub fn run(tier: Tier) -> i32 {
 
     // ---------------------------------------------------------------- raw decoder, dict 1..8, every m
     {
-        let nmax = tier.pick(6usize, 11usize);
+        let nmax = tier.pick(8usize, 11usize);
         let name = format!("raw/dict=1..{}/every-limit", nmax);
         if ctx.may_start(&name) {
             let t0 = Instant::now();
